@@ -86,6 +86,9 @@ func judgeInvalidation(r *Run, j *Judged, cl []*cls) {
 			if setSeq == 0 || setSeq >= u.SeqInv {
 				continue // stored concurrently with / after the unsafe request
 			}
+			if cx.H != nil && cx.H.SeqResp >= u.SeqInv {
+				continue // validated by a 304 the origin sent while / after it handled the unsafe request
+			}
 			sig := "method=" + methodClass(u.Req.Method)
 			if cx.B.Res != u.Op.Res%len(r.Scn.Resources) {
 				sig = "location"
@@ -295,14 +298,7 @@ func judgeExpectedHits(r *Run, j *Judged, cl []*cls, by map[int]*OResp) {
 			if !storableForSure(body) && !r.wasStored(body) {
 				continue
 			}
-			hop := canonHopByHop(L.Header)
-			hdr = body.Header.Clone()
-			for k, v := range L.Header {
-				if hop[k] || k == "Content-Length" {
-					continue
-				}
-				hdr[k] = v
-			}
+			hdr, _ = r.effectiveStored(body, x.SeqInv)
 		} else if !storableForSure(L) && !r.wasStored(L) {
 			continue
 		}
